@@ -288,6 +288,20 @@ class Gen:
             self.bindvar, self.bind_used = None, False
             if callees and f.get("p_bind_instance") and t.chance(f["p_bind_instance"], 8, "bind?"):
                 self.bindvar = (f"_b{i}", t.choice(callees, "bind.which"))
+            role = None
+            if f.get("p_flags") and i > 0 and t.chance(f["p_flags"], 8, "flag.role?"):
+                role = t.choice(["unlock", "gated"], "flag.role")
+            if role == "unlock":
+                # finishes without consuming a time step and changes state that the precondition
+                # of a "gated" behavior reads: eligibility has to be evaluated at every pick
+                d["pre"], d["inv"] = [], []
+                d["body"] = [["setflag", "f0"], ["ev", self.label(beh_names[i])],
+                             ["if", self.table("never"), [["wait"]], []]]
+                self.bindvar = None
+                behaviors.insert(0, d)
+                continue
+            if role == "gated":
+                d["pre"].append(["flag", "f0"])
             d["body"] = ensure_generator(self.block("behavior", beh_names[i], f["depth"], callees))
             if self.bind_used:
                 d["body"].insert(0, ["bind", self.bindvar[0], self.bindvar[1]])
@@ -472,7 +486,9 @@ class Gen:
             role = prog["roles"][str(k)]
             row = []
             for i in range(length):
-                if role == "guard":
+                if role == "never":
+                    row.append(False)
+                elif role == "guard":
                     row.append(not self.t.chance(1, 8, f"tab{k}"))
                 elif role == "cond":
                     row.append(self.t.chance(1, 4, f"tab{k}"))
